@@ -710,6 +710,10 @@ impl WriterSet {
             self.segment_size,
             self.compression,
         )?;
+        // The sync watermark counts bytes of one segment: start a fresh channel for the new one, or the sealed segment's end
+        // would release appends to the new segment before their fsync. Appenders of the sealed segment keep their receivers
+        // of the old channel, whose final value (published by the sync above) covers all of them.
+        self.sync_tx = watch::channel(self.writer.write_offset()).0;
         let old_reader = mem::replace(
             &mut self.reader,
             BucketSegmentReader::open(
